@@ -1,3 +1,5 @@
+//go:build !skip_c10
+
 package props
 
 import (
@@ -321,12 +323,13 @@ func c10Typed(ctx *core.Ctx, idx int) core.Result {
 func init() {
 	register(&core.Property{
 		ID:          "C10",
-		Rule:        "(1) api: histories of 20..150 operations on the real value package — concatenation of arrays/strings, slicing at every pair of bounds, element access, NewArray over fresh Go slices holding existing values — keeping up to 64 live values; after every operation the result is checked against the model and every live value is re-read and compared with the deep copy taken when it was produced; (2) lang: sessions of 16..26 statements over arrays/strings that share structure: slices of slices, concatenation whose left operand is a slice with spare capacity, partially constant array literals, literal-returning functions called repeatedly and extended by the caller, recursion building on slices of its own result, generators yielding growing prefixes, closures holding slices, functions that rebuild their parameter, loops of 3..5 iterations over literals; the complete global frame is compared with the reference after every statement; (3) typed sessions with the same global-frame monitor. non-trivial = >= 10 operations / >= 10 statements compared.",
+		Rule:        "(1) api: histories of 20..150 operations on the real value package — concatenation of arrays/strings, slicing at every pair of bounds, element access, NewArray over fresh Go slices holding existing values — keeping up to 64 live values; after every operation the result is checked against the model and every live value is re-read and compared with the deep copy taken when it was produced; (2) lang: sessions of 16..26 statements over arrays/strings that share structure: slices of slices, concatenation whose left operand is a slice with spare capacity, partially constant array literals, literal-returning functions called repeatedly and extended by the caller, recursion building on slices of its own result, generators yielding growing prefixes, closures holding slices, functions that rebuild their parameter, loops of 3..5 iterations over literals; the complete global frame is compared with the reference after every statement; (3) typed sessions with the same global-frame monitor; (4) closures: arrays and strings captured by sibling closures of one call and by closures a generator yields, the closures routed through other functions (returned unchanged, picked, wrapped, yielded and returned out of the consuming loop) and called again after other calls, deep recursion and loops reused the stack and the iterator contexts (the C04 hof generator with array/string data). non-trivial = >= 10 operations / >= 10 statements compared.",
 		Assumptions: []string{"the VM's ARR instruction is only reachable through programs and is covered at language level"},
 		Families: []core.Family{
 			{Name: "api", Count: countFn(20000, 1500000), Run: c10API},
 			{Name: "lang", Count: countFn(3000, 200000), Run: c10Lang},
 			{Name: "typed", Count: countFn(1500, 100000), Run: c10Typed},
+			{Name: "closures", Count: countFn(3000, 200000), Run: func(ctx *core.Ctx, idx int) core.Result { return hofCase("C10", ctx, idx, 1+idx%2) }},
 		},
 		Sanitize: []string{"api", "lang"},
 		Floors:   []core.Floor{{Key: "value_ops", Quick: 1000000, Thor: 80000000}, {Key: "recomparisons", Quick: 30000000, Thor: 2000000000}, {Key: "statements_compared", Quick: 50000, Thor: 3000000}, {Key: "nontrivial", Quick: 15000, Thor: 1000000}},
